@@ -1,0 +1,152 @@
+//! Verification hooks: event log and cooperative scheduler.
+//! Compiled only with `--cfg kmertools_verif`.
+use std::cell::Cell;
+use std::sync::{Condvar, Mutex};
+
+#[derive(Debug, Clone, PartialEq)]
+pub enum Ev {
+    Write { pos: usize, len: usize, cap: usize },
+    Index { site: &'static str, idx: usize, len: usize },
+    Sched { worker: usize, point: &'static str, arg: i64 },
+}
+
+struct Ctl {
+    active: bool,
+    workers: usize,
+    arrived: usize,
+    schedule: Vec<usize>,
+    cursor: usize,
+    turn: Option<usize>,
+    running: Option<usize>,
+    done: Vec<bool>,
+    free_run: bool,
+}
+
+static CTL: Mutex<Ctl> = Mutex::new(Ctl {
+    active: false,
+    workers: 0,
+    arrived: 0,
+    schedule: Vec::new(),
+    cursor: 0,
+    turn: None,
+    running: None,
+    done: Vec::new(),
+    free_run: false,
+});
+static CV: Condvar = Condvar::new();
+static LOG: Mutex<Vec<Ev>> = Mutex::new(Vec::new());
+static LOGGING: std::sync::atomic::AtomicBool = std::sync::atomic::AtomicBool::new(false);
+
+thread_local! { static WID: Cell<Option<usize>> = const { Cell::new(None) }; }
+
+pub fn set_logging(on: bool) {
+    LOGGING.store(on, std::sync::atomic::Ordering::SeqCst);
+}
+
+pub fn log(ev: Ev) {
+    if LOGGING.load(std::sync::atomic::Ordering::SeqCst) {
+        LOG.lock().unwrap().push(ev);
+    }
+}
+
+pub fn take_log() -> Vec<Ev> {
+    std::mem::take(&mut *LOG.lock().unwrap())
+}
+
+pub fn set_schedule(workers: usize, schedule: Vec<usize>) {
+    let mut c = CTL.lock().unwrap();
+    *c = Ctl {
+        active: true,
+        workers,
+        arrived: 0,
+        schedule,
+        cursor: 0,
+        turn: None,
+        running: None,
+        done: vec![false; workers],
+        free_run: false,
+    };
+}
+
+pub fn clear_schedule() {
+    let mut c = CTL.lock().unwrap();
+    c.active = false;
+    c.free_run = true;
+    CV.notify_all();
+}
+
+fn advance(c: &mut Ctl) {
+    while c.cursor < c.schedule.len() {
+        let w = c.schedule[c.cursor];
+        c.cursor += 1;
+        if w < c.workers && !c.done[w] {
+            c.turn = Some(w);
+            CV.notify_all();
+            return;
+        }
+    }
+    c.free_run = true;
+    CV.notify_all();
+}
+
+/// A yield point of a worker. `name == "start"` registers the worker, `"exit"` retires it.
+pub fn point(name: &'static str, arg: i64) {
+    let mut c = CTL.lock().unwrap();
+    if !c.active {
+        return;
+    }
+    let me = match WID.with(|w| w.get()) {
+        Some(id) => id,
+        None => {
+            let id = c.arrived;
+            c.arrived += 1;
+            WID.with(|w| w.set(Some(id)));
+            CV.notify_all();
+            id
+        }
+    };
+    // barrier: ids are only meaningful once everybody is registered
+    while c.active && c.arrived < c.workers {
+        c = CV.wait(c).unwrap();
+    }
+    if c.running == Some(me) {
+        // the slice granted at my previous point ends here
+        c.running = None;
+    }
+    if LOGGING.load(std::sync::atomic::Ordering::SeqCst) {
+        LOG.lock().unwrap().push(Ev::Sched { worker: me, point: name, arg });
+    }
+    if name == "start" {
+        return;
+    }
+    if name == "exit" {
+        c.done[me] = true;
+        WID.with(|w| w.set(None));
+        if c.done.iter().all(|d| *d) {
+            // a new generation of workers (e.g. the next chunk pass) registers afresh
+            c.arrived = 0;
+            c.done.iter_mut().for_each(|d| *d = false);
+            c.turn = None;
+            return;
+        }
+        if c.turn.is_none() && c.running.is_none() && !c.free_run {
+            advance(&mut c);
+        }
+        return;
+    }
+    loop {
+        if !c.active || c.free_run {
+            break;
+        }
+        if c.turn.is_none() && c.running.is_none() {
+            advance(&mut c);
+            continue;
+        }
+        if c.turn == Some(me) {
+            c.turn = None;
+            c.running = Some(me);
+            break;
+        }
+        c = CV.wait(c).unwrap();
+    }
+}
